@@ -18,7 +18,7 @@ PickSkeleton ==
    /\ \E n \in EMIN..EMAX : \E sk \in EdgeSeqs(V, n) :
         /\ g' = [NoGraph EXCEPT !.edges = sk, !.mass = [i \in 1..n |-> FALSE], !.w = [i \in 1..n |-> 0]]
         /\ tab' = [NoTab EXCEPT !.j = <<>>]
-   /\ UNCHANGED <<cfg, pc, cur, order, ctr, roles, pend, nxi, om, utrE, vtrE, kdeps, xdeps, ctl, narrowed, lamdeps, qsrc, scale, logs, out>>
+   /\ UNCHANGED <<cfg, pc, cur, order, ctr, roles, pend, nxi, om, utrE, vtrE, kdeps, xdeps, ctl, narrowed, lamdeps, qsrc, scale, logs, outdeps, out>>
 PickGraph ==
    /\ NE(g) > 0 /\ tab.j = <<>> /\ Len(tab.l) = 1
    /\ LET n == NE(g) IN
@@ -40,11 +40,15 @@ A_LambdaOk   == ~Picking /\ DrawLambda("Ok")
 A_LambdaErr  == ~Picking /\ DrawLambda("ErrGamma")
 A_BoxMullerA == ~Picking /\ BoxMullerA
 A_BoxMullerB == ~Picking /\ BoxMullerB
-A_Finish     == ~Picking /\ Finish
+A_UVectors   == ~Picking /\ UVectors
+A_VPoly      == ~Picking /\ VPoly
+A_Momenta    == ~Picking /\ Momenta
+A_Jacobian   == ~Picking /\ Jacobian
+A_Return     == ~Picking /\ Return
 A_Terminated == ~Picking /\ Terminated
 MCNext == PickSkeleton \/ PickGraph \/ A_PickEdge \/ A_LastEdge \/ A_Assign \/ A_DrawXi \/ A_Rescale
           \/ A_DecompOk \/ A_DecompErr \/ A_LambdaOk \/ A_LambdaErr \/ A_BoxMullerA \/ A_BoxMullerB
-          \/ A_Finish \/ A_Terminated
+          \/ A_UVectors \/ A_VPoly \/ A_Momenta \/ A_Jacobian \/ A_Return \/ A_Terminated
 MCSpec == MCInit /\ [][MCNext]_vars
 MCFair == MCSpec /\ WF_vars(MCNext)
 
@@ -54,7 +58,7 @@ I_TypeOK == G(TypeOK)           I_RolesOK == G(RolesOK)        I_ReadsAtExit == 
 I_Independent == G(Independent) I_BoxMullerMap == G(BoxMullerMap)
 I_NarrowOnlyLambda == G(NarrowOnlyLambda)   I_SectorTotal == G(SectorTotal)
 I_SectorFormula == G(SectorFormula)  I_FlagsOK == G(FlagsOK)  I_RescaleNormalises == G(RescaleNormalises)
-I_FlagsComplete == G(FlagsComplete)  I_LogsOK == G(LogsOK)
+I_FlagsComplete == G(FlagsComplete)  I_LogsOK == G(LogsOK)   I_OutDepsOK == G(OutDepsOK)
 PureCalls == [][~Picking => (g' = g /\ tab' = tab /\ cfg' = cfg)]_vars
 Terminates == <>(~Picking => pc = "done")
 =============================================================================
